@@ -1,0 +1,43 @@
+//go:build verif
+
+// Verification hooks (build tag "verif" only): a bare DiscoveryServer around caller-supplied
+// generators and entry points to the unexported request / push handlers, for the C03 / C05
+// harness. No behaviour change; absent from normal builds.
+
+package xds
+
+import (
+	discovery "github.com/envoyproxy/go-control-plane/envoy/service/discovery/v3"
+
+	"istio.io/istio/pilot/pkg/model"
+)
+
+// VerifC03NewServer returns a DiscoveryServer that has only generators: every proxy needs every push.
+func VerifC03NewServer(gens map[string]model.XdsResourceGenerator) *DiscoveryServer {
+	return &DiscoveryServer{
+		Generators: gens,
+		ProxyNeedsPush: func(_ *model.Proxy, req *model.PushRequest) (*model.PushRequest, bool) {
+			return req, true
+		},
+	}
+}
+
+// VerifC03ProcessDeltaRequest exposes processDeltaRequest.
+func VerifC03ProcessDeltaRequest(s *DiscoveryServer, req *discovery.DeltaDiscoveryRequest, con *Connection) error {
+	return s.processDeltaRequest(req, con)
+}
+
+// VerifC03ProcessRequest exposes processRequest.
+func VerifC03ProcessRequest(s *DiscoveryServer, req *discovery.DiscoveryRequest, con *Connection) error {
+	return s.processRequest(req, con)
+}
+
+// VerifC03PushConnectionDelta exposes pushConnectionDelta.
+func VerifC03PushConnectionDelta(s *DiscoveryServer, con *Connection, req *model.PushRequest) error {
+	return s.pushConnectionDelta(con, &Event{pushRequest: req, done: func() {}})
+}
+
+// VerifC03PushConnection exposes pushConnection.
+func VerifC03PushConnection(s *DiscoveryServer, con *Connection, req *model.PushRequest) error {
+	return s.pushConnection(con, &Event{pushRequest: req, done: func() {}})
+}
